@@ -5,7 +5,7 @@ import json, os, re, shutil, sys
 
 VERIF = os.path.dirname(os.path.dirname(os.path.abspath(__file__)))
 cnn, ab, slug, needs = sys.argv[1], sys.argv[2], sys.argv[3], sys.argv[4]
-src = "/tmp/mut_%s_out/%s" % (cnn, ab)
+src = "/tmp/%s_%s_out/%s" % (os.environ.get("MUT_PREFIX", "mut"), cnn, ab)
 pid = cnn.upper()
 dst = os.path.join(VERIF, "seeded", "%s-%s" % (pid, slug))
 os.makedirs(dst, exist_ok=True)
@@ -17,7 +17,7 @@ if demo_file:
 if os.path.exists(os.path.join(src, "notes.md")):
     shutil.copy(os.path.join(src, "notes.md"), dst)
 txt = open(os.path.join(src, "demo_path.txt")).read() if os.path.exists(os.path.join(src, "demo_path.txt")) else ""
-cands = [c for c in re.findall(r"([\w./-]+\.go)", txt) if not re.match(r"^[AB]/", c)]
+cands = [c for c in re.findall(r"([\w./-]+\.go)", txt) if not re.match(r"^[AB]/", c) and "/" in c]
 path = cands[0] if cands else ""
 m = re.search(r"(go (?:test|run)[^\n`]*)", txt)
 cmd = m.group(1).strip() if m else ""
